@@ -249,7 +249,23 @@ func (ix *idxEngine) table() []tableEntry {
 			Match: func(ix *idxEngine, o *idxOb) bool {
 				// the last-element bookkeeping of the content-line builder: an index or re-slice of a []string at
 				// len-1 in the emitter method that assembles slots and dividers
-				if (o.Kind != "IDX" && o.Kind != "SLC") || o.Fn.Name() != "commonRenderedLine" {
+				if o.Kind != "IDX" && o.Kind != "SLC" {
+					return false
+				}
+				inBuilder := o.Fn.Name() == "commonRenderedLine"
+				if !inBuilder {
+					// or in a helper of the same package that the builder hands its field list to
+					if em := c.Named("texttable/decoration", "emitter"); em != nil {
+						if crl := c.MethodOpt(em, false, "commonRenderedLine"); crl != nil {
+							for _, h := range pkgReach(crl, 1)[1:] {
+								if h == o.Fn {
+									inBuilder = true
+								}
+							}
+						}
+					}
+				}
+				if !inBuilder {
 					return false
 				}
 				var sl ssa.Value
@@ -383,28 +399,17 @@ func (ix *idxEngine) populateComplete(need map[string]bool) (bool, string) {
 		}
 	}
 	// built-ins
-	reg := c.Func("texttable/decoration", "RegisterDecorationName")
 	isBoxless := c.Field(dec, "isBoxless")
-	for _, fn := range c.ModFuncs("texttable/decoration") {
-		if !isPkgInit(fn) {
-			continue
+	regs, unresolved := decorationInitRegistrations(c)
+	if len(unresolved) > 0 {
+		return false, "an init-time registration could not be resolved"
+	}
+	for _, rg := range regs {
+		if rg.Builder == nil {
+			return false, "registered value is not built by a function"
 		}
-		bad := ""
-		eachInstr(fn, func(in ssa.Instruction) {
-			if staticCallee(in) != reg {
-				return
-			}
-			call, ok := callCommon(in).Args[1].(*ssa.Call)
-			if !ok || call.Call.StaticCallee() == nil {
-				bad = "registered value is not built by a function"
-				return
-			}
-			if !ix.buildsComplete(call.Call.StaticCallee(), pop, isBoxless, 0) {
-				bad = FuncName(call.Call.StaticCallee()) + " neither calls Populate nor sets isBoxless"
-			}
-		})
-		if bad != "" {
-			return false, bad
+		if !ix.buildsComplete(rg.Builder, pop, isBoxless, 0) {
+			return false, FuncName(rg.Builder) + " neither calls Populate nor sets isBoxless"
 		}
 	}
 	return true, ""
